@@ -63,7 +63,11 @@ def filter_block_st(draw):
     elif kind == "new-null":
         extras["filter_stats"] = {"filtered_complete": {"weighted": None}}
     elif kind == "new-empty":
-        extras["filter_stats"] = draw(st.sampled_from([{}, {"filtered_complete": {}}]))
+        extras["filter_stats"] = draw(st.sampled_from([{}, {"filtered_complete": {}},
+                                                       {"filtered_complete": {"weighted": {}}}]))
+    if kind in ("new-null", "new-empty") and draw(st.booleans()):
+        # the categorical-date flag only matters when complete-case statistics are present
+        extras["filter_stats"] = dict(extras["filter_stats"], is_cat_date=True)
     return extras
 
 
